@@ -32,9 +32,11 @@ import (
 	simapp "github.com/provenance-io/provenance/app"
 	internalsdk "github.com/provenance-io/provenance/internal/sdk"
 	attrtypes "github.com/provenance-io/provenance/x/attribute/types"
+	"github.com/provenance-io/provenance/x/marker"
 	markerkeeper "github.com/provenance-io/provenance/x/marker/keeper"
 	markertypes "github.com/provenance-io/provenance/x/marker/types"
 	"github.com/provenance-io/provenance/x/quarantine"
+	"github.com/provenance-io/provenance/x/sanction"
 )
 
 const (
@@ -81,6 +83,13 @@ type c04MarkerCfg struct {
 	deny       map[string]bool
 	forced     bool
 	funded     bool // the marker account holds coins (can be a sender in the bank paths)
+	// life: how the status was reached.  "" = stored with that status directly (as genesis import does);
+	// otherwise the REAL lifecycle: "cancel-proposed" (proposed -> MsgCancel by the manager, coins of the
+	// denom stay in circulation), "cancel-active" (activated -> MsgCancel, needs the whole supply in escrow),
+	// "delete" (... -> MsgDelete: supply burned, status destroyed), "remove" (... -> the marker module's
+	// BeginBlocker removes the destroyed marker account: no account is left).
+	life     string
+	unfunded bool // nobody outside the marker's escrow holds this denom (the lifecycle demands it)
 }
 
 type c04Actor struct {
@@ -97,6 +106,25 @@ type c04World struct {
 	markers []*c04MarkerCfg
 	byAddr  map[string]*c04MarkerCfg
 	attrs   map[string][]string
+	// sanction and quarantine state realised with the real keepers
+	sanctioned map[string]bool
+	optin      map[string]bool
+	auto       map[string]bool // receiver + sender
+	market     uint32
+	nscopes    int
+}
+
+// extraDenom registers a denom without a marker (e.g. a scope's value-owner coin) so that it gets a
+// Coq denom number.
+func (w *c04World) extraDenom(denom string) *c04MarkerCfg {
+	addr := markertypes.MustGetMarkerAddress(denom)
+	if m, ok := w.byAddr[string(addr)]; ok {
+		return m
+	}
+	m := &c04MarkerCfg{idx: len(w.markers) + 1, denom: denom, addr: addr, kind: c04Absent, deny: map[string]bool{}, unfunded: true}
+	w.markers = append(w.markers, m)
+	w.byAddr[string(addr)] = m
+	return m
 }
 
 type c04Env struct {
@@ -113,12 +141,16 @@ type c04Env struct {
 	mmod    *c04Actor
 	ibcmod  *c04Actor
 	ghost   *c04Actor // no account, no funds
+	sanct   *c04Actor   // sanctioned in every world (funded before the sanction)
+	quars   []*c04Actor // quarantined in every world: [0] holds "kyc.cfour.pb", [1] auto-accepts plain0 and agent0, [2] no attributes
+	holder  *c04Actor   // the quarantine funds holder (a required-attribute bypass address)
 	actors  map[string]*c04Actor
 	order   []*c04Actor
 	intern  map[string]int
 	bypassList []sdk.AccAddress
 	accepted, denied int64
 	sampled map[string]bool
+	relExtra []sdk.AccAddress // further addresses whose grants / deny entries / attributes the configuration must show
 }
 
 func (e *c04Env) actor(role string, addr sdk.AccAddress, exists, funded, module bool) *c04Actor {
@@ -147,7 +179,8 @@ func c04Perm(p markertypes.Access) string { return c04AccessCoq[p] }
 func (e *c04Env) buildWorld(base sdk.Context, wi int) *c04World {
 	t, app, r := e.t, e.app, e.r
 	ctx, _ := base.CacheContext()
-	w := &c04World{ctx: ctx, byAddr: map[string]*c04MarkerCfg{}, attrs: map[string][]string{}}
+	w := &c04World{ctx: ctx, byAddr: map[string]*c04MarkerCfg{}, attrs: map[string][]string{},
+		sanctioned: map[string]bool{}, optin: map[string]bool{}, auto: map[string]bool{}}
 
 	// marker classes
 	add := func(kind int, restricted bool, status markertypes.MarkerStatus, req []string) {
@@ -158,10 +191,14 @@ func (e *c04Env) buildWorld(base sdk.Context, wi int) *c04World {
 		w.markers = append(w.markers, m)
 		w.byAddr[string(m.addr)] = m
 	}
+	last := func() *c04MarkerCfg { return w.markers[len(w.markers)-1] }
 	add(c04Absent, false, 0, nil)
 	add(c04Squatted, false, 0, nil) // the shape of the finding fixed by f4bdf3346 (findings/C04.md)
 	for _, st := range c04Statuses {
 		add(c04Marker, false, st, nil)
+		if st == markertypes.StatusCancelled {
+			last().life = "cancel-proposed" // real MsgCancel of a proposed marker; the denom stays in circulation
+		}
 		if st == markertypes.StatusActive {
 			for _, rs := range c04ReqSets {
 				add(c04Marker, true, st, rs)
@@ -169,8 +206,18 @@ func (e *c04Env) buildWorld(base sdk.Context, wi int) *c04World {
 		} else {
 			add(c04Marker, true, st, nil)
 			add(c04Marker, true, st, c04ReqSets[1+r.Intn(len(c04ReqSets)-1)])
+			if st == markertypes.StatusCancelled {
+				last().life = "cancel-proposed"
+			}
 		}
 	}
+	// the rest of the real lifecycle needs the whole supply in the marker's escrow: denoms nobody else holds
+	add(c04Marker, true, markertypes.StatusCancelled, c04ReqSets[r.Intn(len(c04ReqSets))])
+	last().life, last().unfunded = "cancel-active", true
+	add(c04Marker, r.Intn(2) == 0, markertypes.StatusDestroyed, c04ReqSets[r.Intn(len(c04ReqSets))])
+	last().life, last().unfunded = "delete", true
+	add(c04Marker, true, markertypes.StatusDestroyed, nil)
+	last().life, last().unfunded = "remove", true
 	for i := 0; i < 9; i++ { // more active restricted markers: the access matrix is what varies
 		add(c04Marker, true, markertypes.StatusActive, c04ReqSets[r.Intn(len(c04ReqSets))])
 	}
@@ -192,7 +239,9 @@ func (e *c04Env) buildWorld(base sdk.Context, wi int) *c04World {
 	// funding happens under the context bypass: it is set-up, not the behaviour under test.
 	var all sdk.Coins
 	for _, m := range w.markers {
-		all = all.Add(sdk.NewInt64Coin(m.denom, 1000))
+		if !m.unfunded {
+			all = all.Add(sdk.NewInt64Coin(m.denom, 1000))
+		}
 	}
 	bctx := markertypes.WithBypass(ctx)
 	c04Fund(t, app, bctx, e.feeColl.addr, all) // first: nothing is in the way yet
@@ -202,7 +251,7 @@ func (e *c04Env) buildWorld(base sdk.Context, wi int) *c04World {
 		}
 	}
 	for _, m := range w.markers {
-		if m.kind == c04Squatted || (m.kind == c04Marker && r.Intn(3) != 0) {
+		if m.kind == c04Squatted || (m.kind == c04Marker && r.Intn(3) != 0 && m.life != "delete" && m.life != "remove") {
 			c04Fund(t, app, bctx, m.addr, all) // creates a plain account at the marker address
 			m.funded = true
 		}
@@ -245,11 +294,54 @@ func (e *c04Env) buildWorld(base sdk.Context, wi int) *c04World {
 		setAttrs(a.addr, subset(0.3))
 	}
 	setAttrs(e.bypass[0].addr, subset(0.3))
+	setAttrs(e.sanct.addr, subset(0.3))
+	setAttrs(e.quars[0].addr, []string{"kyc.cfour.pb"})
+	setAttrs(e.quars[1].addr, []string{"aa.kyc.cfour.pb", "other.pb"})
 
 	// markers (real marker keeper)
-	grantable := append(append(append([]*c04Actor{}, e.plain...), e.agents...), e.bypass[0], e.recv[0])
+	grantable := append(append(append([]*c04Actor{}, e.plain...), e.agents...), e.bypass[0], e.recv[0], e.sanct, e.holder)
+	deliver := func(msg sdk.Msg) error {
+		return try(func() error {
+			if vb, ok := msg.(interface{ ValidateBasic() error }); ok {
+				if err := vb.ValidateBasic(); err != nil {
+					return err
+				}
+			}
+			_, err := app.MsgServiceRouter().Handler(msg)(ctx, msg)
+			return err
+		})
+	}
+	// the marker to be removed goes first: the begin blocker that removes it would also remove every other
+	// destroyed marker (those driven to that status by MsgDelete and those stored with it directly)
+	var ordered []*c04MarkerCfg
 	for _, m := range w.markers {
-		if m.kind != c04Marker {
+		if m.kind == c04Marker && m.life == "remove" {
+			ordered = append(ordered, m)
+		}
+	}
+	ordered = append(ordered, nil) // marks the begin block
+	for _, m := range w.markers {
+		if m.kind == c04Marker && m.life != "" && m.life != "remove" {
+			ordered = append(ordered, m)
+		}
+	}
+	for _, m := range w.markers {
+		if m.kind == c04Marker && m.life == "" {
+			ordered = append(ordered, m)
+		}
+	}
+	for _, m := range ordered {
+		if m == nil {
+			marker.BeginBlocker(ctx, app.MarkerKeeper, app.BankKeeper) // the REAL begin blocker
+			for _, x := range w.markers {
+				if x.life == "remove" {
+					if acc := app.AccountKeeper.GetAccount(ctx, x.addr); acc != nil {
+						t.Fatalf("destroyed marker %s survived the begin blocker", x.denom)
+					}
+					x.kind, x.grants, x.deny = c04Absent, nil, map[string]bool{}
+					e.w.Count("lifecycle_removed_by_begin_block")
+				}
+			}
 			continue
 		}
 		var grants []markertypes.AccessGrant
@@ -276,6 +368,9 @@ func (e *c04Env) buildWorld(base sdk.Context, wi int) *c04World {
 			m.grants = append(m.grants, c04Grant{addr: a.addr, perms: perms})
 			grants = append(grants, markertypes.AccessGrant{Address: a.addr.String(), Permissions: perms})
 		}
+		if m.life != "" { // the owner drives the lifecycle; it is never an endpoint or agent of a query
+			grants = append(grants, markertypes.AccessGrant{Address: e.owner.String(), Permissions: []markertypes.Access{markertypes.Access_Delete}})
+		}
 		m.forced = m.restricted && r.Intn(3) == 0
 		mk := func(status markertypes.MarkerStatus) *markertypes.MarkerAccount {
 			return markertypes.NewMarkerAccount(authtypes.NewBaseAccountWithAddress(m.addr), sdk.NewInt64Coin(m.denom, 10_000_000),
@@ -283,6 +378,26 @@ func (e *c04Env) buildWorld(base sdk.Context, wi int) *c04World {
 				false, true, m.forced, m.reqAttrs)
 		}
 		var err error
+		switch {
+		case m.life == "cancel-proposed":
+			if err = app.MarkerKeeper.AddMarkerAccount(ctx, mk(markertypes.StatusProposed)); err == nil {
+				err = deliver(markertypes.NewMsgCancelRequest(m.denom, e.owner))
+			}
+			e.w.Count("lifecycle_cancelled_from_proposed")
+		case m.life != "":
+			if err = app.MarkerKeeper.AddFinalizeAndActivateMarker(ctx, mk(markertypes.StatusProposed)); err == nil {
+				err = deliver(markertypes.NewMsgCancelRequest(m.denom, e.owner))
+			}
+			if err == nil && m.life != "cancel-active" {
+				err = deliver(markertypes.NewMsgDeleteRequest(m.denom, e.owner))
+			}
+			e.w.Count("lifecycle_" + m.life)
+		}
+		if m.life != "" {
+			if err != nil {
+				t.Fatalf("lifecycle %s of marker %s: %v", m.life, m.denom, err)
+			}
+		} else {
 		switch m.status {
 		case markertypes.StatusProposed:
 			err = app.MarkerKeeper.AddMarkerAccount(ctx, mk(markertypes.StatusProposed))
@@ -294,6 +409,7 @@ func (e *c04Env) buildWorld(base sdk.Context, wi int) *c04World {
 			err = app.MarkerKeeper.AddFinalizeAndActivateMarker(ctx, mk(markertypes.StatusProposed))
 		default: // cancelled / destroyed: stored with that status, as genesis import does
 			err = app.MarkerKeeper.AddMarkerAccount(ctx, mk(m.status))
+		}
 		}
 		if err != nil {
 			t.Fatalf("creating marker %s (%v): %v", m.denom, m.status, err)
@@ -311,6 +427,58 @@ func (e *c04Env) buildWorld(base sdk.Context, wi int) *c04World {
 			}
 		}
 	}
+
+	// accounts that sign metadata messages must not look like smart contracts (sequence 0, no key);
+	// the same sequence decides whether funds may be forced out of an account (canForceTransferFrom)
+	for _, a := range append(append(append([]*c04Actor{}, e.plain[:4]...), e.agents...), e.sanct) {
+		acc := app.AccountKeeper.GetAccount(ctx, a.addr)
+		if err := acc.SetSequence(1); err != nil {
+			t.Fatal(err)
+		}
+		app.AccountKeeper.SetAccount(ctx, acc)
+	}
+
+	// sanction and quarantine state (real keepers), after all funding
+	sanctionIt := func(a sdk.AccAddress) {
+		if err := app.SanctionKeeper.SanctionAddresses(ctx, a); err != nil {
+			t.Fatalf("sanction: %v", err)
+		}
+		w.sanctioned[string(a)] = true
+	}
+	optIn := func(a sdk.AccAddress) {
+		if err := app.QuarantineKeeper.SetOptIn(ctx, a); err != nil {
+			t.Fatalf("quarantine opt-in: %v", err)
+		}
+		w.optin[string(a)] = true
+	}
+	autoAccept := func(to, from sdk.AccAddress) {
+		app.QuarantineKeeper.SetAutoResponse(ctx, to, from, quarantine.AUTO_RESPONSE_ACCEPT)
+		w.auto[string(to)+string(from)] = true
+	}
+	sanctionIt(e.sanct.addr)
+	for _, q := range e.quars {
+		optIn(q.addr)
+	}
+	autoAccept(e.quars[1].addr, e.plain[0].addr)
+	autoAccept(e.quars[1].addr, e.agents[0].addr)
+	app.QuarantineKeeper.SetAutoResponse(ctx, e.quars[2].addr, e.plain[0].addr, quarantine.AUTO_RESPONSE_DECLINE) // declines are still quarantined
+	if wi > 0 { // further worlds: random sanction / quarantine state over the ordinary actors
+		for _, a := range e.plain[1:] {
+			if r.Intn(6) == 0 {
+				sanctionIt(a.addr)
+			}
+		}
+		for _, a := range append(append([]*c04Actor{}, e.recv...), e.plain[4], e.plain[5]) {
+			if a.exists && r.Intn(3) == 0 {
+				optIn(a.addr)
+				for _, f := range e.plain {
+					if r.Intn(4) == 0 {
+						autoAccept(a.addr, f.addr)
+					}
+				}
+			}
+		}
+	}
 	return w
 }
 
@@ -320,6 +488,8 @@ type c04Query struct {
 	from, to   sdk.AccAddress
 	agents     []sdk.AccAddress
 	bypass, fg bool
+	sbypass    bool // sanction.WithBypass (no site in the application sets it; the flag exists)
+	qbypass    bool // quarantine.WithBypass (exchange transfers, accepting quarantined funds)
 	amt        sdk.Coins
 	toModule   string // when set, the "send" bank path is SendCoinsFromAccountToModule(from, toModule)
 }
@@ -333,6 +503,12 @@ func (e *c04Env) qctx(ctx sdk.Context, q *c04Query) sdk.Context {
 	}
 	if q.fg {
 		ctx = internalsdk.WithFeeGrantInUse(ctx)
+	}
+	if q.sbypass {
+		ctx = sanction.WithBypass(ctx)
+	}
+	if q.qbypass {
+		ctx = quarantine.WithBypass(ctx)
 	}
 	return ctx
 }
@@ -385,6 +561,7 @@ func (e *c04Env) configTerm(w *c04World, from sdk.AccAddress, tos []sdk.AccAddre
 	relevant := []sdk.AccAddress{from}
 	relevant = append(relevant, tos...)
 	relevant = append(relevant, agents...)
+	relevant = append(relevant, e.relExtra...) // e.g. the administrator of a MsgTransferRequest
 	seenAddr := map[string]bool{}
 	var rel []sdk.AccAddress
 	for _, a := range relevant {
@@ -490,6 +667,55 @@ func (e *c04Env) configTerm(w *c04World, from sdk.AccAddress, tos []sdk.AccAddre
 	return term, desc, squat
 }
 
+// appTerm renders the application configuration: the marker slice (configTerm) plus the sanction and
+// quarantine state the composed restriction can depend on for these endpoints.
+func (e *c04Env) appTerm(w *c04World, from sdk.AccAddress, tos []sdk.AccAddress, agents []sdk.AccAddress, bypass, fg, sbypass, qbypass bool, denoms []string) (string, map[string]any, bool) {
+	all := append([]sdk.AccAddress{from}, tos...)
+	all = append(all, e.holder.addr) // the holder can be a destination
+	cfg, desc, squat := e.configTerm(w, from, tos, agents, bypass, fg, denoms)
+	var sanc, opt, auto, sd, od, ad []string
+	seen := map[string]bool{}
+	for _, a := range all {
+		if seen[string(a)] {
+			continue
+		}
+		seen[string(a)] = true
+		if w.sanctioned[string(a)] {
+			sanc = append(sanc, e.coqAddr(w, a))
+			sd = append(sd, e.role(w, a))
+		}
+		if w.optin[string(a)] {
+			opt = append(opt, e.coqAddr(w, a))
+			od = append(od, e.role(w, a))
+		}
+	}
+	seenTo := map[string]bool{}
+	for _, to := range tos {
+		if seenTo[string(to)] {
+			continue
+		}
+		seenTo[string(to)] = true
+		seenFrom := map[string]bool{}
+		for _, f := range all {
+			if seenFrom[string(f)] {
+				continue
+			}
+			seenFrom[string(f)] = true
+			if w.auto[string(to)+string(f)] {
+				auto = append(auto, fmt.Sprintf("(%s, %s)", e.coqAddr(w, to), e.coqAddr(w, f)))
+				ad = append(ad, e.role(w, to)+" accepts "+e.role(w, f))
+			}
+		}
+	}
+	term := fmt.Sprintf("(AC %s %s %s %s %s %s %s)", cfg, coqList(sanc), coqBool(sbypass), coqList(opt), coqList(auto), e.coqAddr(w, e.holder.addr), coqBool(qbypass))
+	desc["sanctioned"] = sd
+	desc["quarantined"] = od
+	desc["auto_accept"] = ad
+	desc["sanction_bypass"] = sbypass
+	desc["quarantine_bypass"] = qbypass
+	return term, desc, squat
+}
+
 func (e *c04Env) coinsTerm(w *c04World, amt sdk.Coins) string {
 	var cs []string
 	for _, c := range amt {
@@ -520,7 +746,7 @@ func (e *c04Env) bank(w *c04World, q *c04Query, which string) (string, string) {
 		}
 		return out
 	}
-	bf, bt := before(q.from), before(q.to)
+	bf, bt, bh := before(q.from), before(q.to), before(e.holder.addr)
 	err := try(func() error {
 		switch which {
 		case "send":
@@ -538,10 +764,17 @@ func (e *c04Env) bank(w *c04World, q *c04Query, which string) (string, string) {
 	if err != nil {
 		return "BDenied", "denied"
 	}
-	af, at := before(q.from), before(q.to)
+	af, at, ah := before(q.from), before(q.to), before(e.holder.addr)
 	var ds []string
+	redirected := false
 	for i, c := range q.amt {
-		ds = append(ds, fmt.Sprintf("(D %d, %s, %s)", w.byAddr[string(markertypes.MustGetMarkerAddress(c.Denom))].idx, zInt(af[i].Sub(bf[i])), zInt(at[i].Sub(bt[i]))))
+		ds = append(ds, fmt.Sprintf("(D %d, %s, %s, %s)", w.byAddr[string(markertypes.MustGetMarkerAddress(c.Denom))].idx, zInt(af[i].Sub(bf[i])), zInt(at[i].Sub(bt[i])), zInt(ah[i].Sub(bh[i]))))
+		if ah[i].GT(bh[i]) && !q.to.Equals(e.holder.addr) {
+			redirected = true
+		}
+	}
+	if redirected {
+		return "(BMoved " + coqList(ds) + ")", "accepted, funds went to the quarantine holder"
 	}
 	return "(BMoved " + coqList(ds) + ")", "accepted"
 }
@@ -551,7 +784,7 @@ func (e *c04Env) emit(w *c04World, q *c04Query, bankSend, bankIO, bankDeleg bool
 	for _, c := range q.amt {
 		denoms = append(denoms, c.Denom)
 	}
-	cfg, desc, squat := e.configTerm(w, q.from, []sdk.AccAddress{q.to}, q.agents, q.bypass, q.fg, denoms)
+	cfg, desc, squat := e.appTerm(w, q.from, []sdk.AccAddress{q.to}, q.agents, q.bypass, q.fg, q.sbypass, q.qbypass, denoms)
 	ok, same := e.fnOK(w, q, q.amt, q.to)
 	var singles []string
 	for _, c := range q.amt {
@@ -560,7 +793,13 @@ func (e *c04Env) emit(w *c04World, q *c04Query, bankSend, bankIO, bankDeleg bool
 	}
 	send, io, deleg := "BNotRun", "BNotRun", "BNotRun"
 	sd, id, dd := "not run", "not run", "not run"
-	if e.funded(w, q.from) {
+	circulating := true // every denom of the amount is held outside marker escrows
+	for _, c := range q.amt {
+		if w.byAddr[string(markertypes.MustGetMarkerAddress(c.Denom))].unfunded {
+			circulating = false
+		}
+	}
+	if e.funded(w, q.from) && circulating {
 		if bankSend {
 			send, sd = e.bank(w, q, "send")
 		}
@@ -597,6 +836,21 @@ func (e *c04Env) emit(w *c04World, q *c04Query, bankSend, bankIO, bankDeleg bool
 	}
 	if send != "BNotRun" {
 		e.w.Count("bank_send_coins")
+		if w.sanctioned[string(q.from)] {
+			e.w.Count("bank_send_coins_sanctioned_sender")
+		}
+		if w.optin[string(q.to)] {
+			e.w.Count("bank_send_coins_quarantined_receiver")
+		}
+		if strings.HasSuffix(sd, "quarantine holder") {
+			e.w.Count("bank_send_coins_redirected_to_holder")
+		}
+	}
+	for _, c := range q.amt {
+		if m := w.byAddr[string(markertypes.MustGetMarkerAddress(c.Denom))]; m.life != "" {
+			e.w.Count("denom_with_lifecycle_driven_marker")
+			break
+		}
 	}
 	if io != "BNotRun" {
 		e.w.Count("bank_input_output_coins")
@@ -644,7 +898,13 @@ func (e *c04Env) emitMulti(w *c04World, q *c04Query, outs []banktypes.Output, ou
 		denoms = append(denoms, d)
 	}
 	sort.Strings(denoms)
-	cfg, desc, squat := e.configTerm(w, q.from, outAddrs, q.agents, q.bypass, q.fg, denoms)
+	for _, d := range denoms {
+		if w.byAddr[string(markertypes.MustGetMarkerAddress(d))].unfunded {
+			e.w.Count("multi_send_skipped_uncirculated_denom")
+			return
+		}
+	}
+	cfg, desc, squat := e.appTerm(w, q.from, outAddrs, q.agents, q.bypass, q.fg, q.sbypass, q.qbypass, denoms)
 	var oks, outTerms []string
 	var outDesc []map[string]any
 	for i, o := range outs {
@@ -664,7 +924,7 @@ func (e *c04Env) emitMulti(w *c04World, q *c04Query, outs []banktypes.Output, ou
 		}
 		return out
 	}
-	bf := bal(q.from, total)
+	bf, bh := bal(q.from, total), bal(e.holder.addr, total)
 	var bo [][]sdkmath.Int
 	for i, o := range outs {
 		bo = append(bo, bal(outAddrs[i], o.Coins))
@@ -674,10 +934,14 @@ func (e *c04Env) emitMulti(w *c04World, q *c04Query, outs []banktypes.Output, ou
 	})
 	io := "MDenied"
 	if err == nil {
-		af := bal(q.from, total)
-		var fd, od []string
+		af, ah := bal(q.from, total), bal(e.holder.addr, total)
+		var fd, od, hd []string
 		for i, c := range total {
 			fd = append(fd, fmt.Sprintf("(D %d, %s)", idx(c.Denom), zInt(af[i].Sub(bf[i]))))
+			hd = append(hd, fmt.Sprintf("(D %d, %s)", idx(c.Denom), zInt(ah[i].Sub(bh[i]))))
+			if ah[i].GT(bh[i]) {
+				e.w.Count("multi_send_redirected_to_holder")
+			}
 		}
 		for i, o := range outs {
 			ao := bal(outAddrs[i], o.Coins)
@@ -687,7 +951,7 @@ func (e *c04Env) emitMulti(w *c04World, q *c04Query, outs []banktypes.Output, ou
 			}
 			od = append(od, coqList(one))
 		}
-		io = "(MMoved " + coqList(fd) + " " + coqList(od) + ")"
+		io = "(MMoved " + coqList(fd) + " " + coqList(od) + " " + coqList(hd) + ")"
 		e.w.Count("multi_send_accepted")
 	}
 	desc["kind"] = "multi-send"
@@ -716,6 +980,10 @@ func TestC04(t *testing.T) {
 		e.recv = append(e.recv, e.actor(fmt.Sprintf("receiver%d", i), addrN(420+i), i != 5, i == 1, false))
 	}
 	e.ghost = e.actor("no-account", addrN(430), false, false, false)
+	e.sanct = e.actor("sanctioned-plain", addrN(431), true, true, false)
+	for i := 0; i < 3; i++ {
+		e.quars = append(e.quars, e.actor(fmt.Sprintf("quarantined%d", i), addrN(432+i), true, i == 1, false))
+	}
 	e.feeColl = e.actor("fee-collector", authtypes.NewModuleAddress(authtypes.FeeCollectorName), true, true, true)
 	e.feeColl.macc = authtypes.FeeCollectorName
 	e.mmod = e.actor("marker-module", authtypes.NewModuleAddress(markertypes.CoinPoolName), true, true, true)
@@ -728,6 +996,12 @@ func TestC04(t *testing.T) {
 			a.macc = n
 		}
 		e.bypass = append(e.bypass, a)
+		if n == quarantine.ModuleName {
+			e.holder = a
+		}
+	}
+	if !app.QuarantineKeeper.GetFundsHolder().Equals(e.holder.addr) {
+		t.Fatalf("quarantine funds holder is %s", app.QuarantineKeeper.GetFundsHolder())
 	}
 	// the bypass list the keeper was really constructed with (app.go)
 	e.bypassList = app.MarkerKeeper.GetReqAttrBypassAddrs()
@@ -820,17 +1094,17 @@ func TestC04(t *testing.T) {
 		// ---- (a) every single-denom configuration over the main dimensions ----
 		if wi == 0 { // thorough widens the sender / receiver / flag sets below
 			senders := []sdk.AccAddress{e.plain[0].addr, e.plain[1].addr, e.plain[2].addr, e.agents[0].addr, e.bypass[0].addr, e.bypass[1].addr,
-				e.feeColl.addr, e.mmod.addr}
+				e.feeColl.addr, e.mmod.addr, e.sanct.addr}
 			for _, m := range []*c04MarkerCfg{pick(fundedMarkers(func(m *c04MarkerCfg) bool { return m.restricted && m.status == markertypes.StatusActive })),
 				pick(fundedMarkers(func(m *c04MarkerCfg) bool { return m.status != markertypes.StatusActive }))} {
 				senders = append(senders, m.addr)
 			}
 			receivers := []sdk.AccAddress{e.recv[0].addr, e.recv[1].addr, e.recv[2].addr, e.recv[3].addr, e.plain[4].addr,
 				e.bypass[0].addr, e.bypass[1].addr, e.feeColl.addr, pick(restrictedActive).addr,
-				pick(fundedMarkers(func(m *c04MarkerCfg) bool { return !m.restricted })).addr}
+				pick(fundedMarkers(func(m *c04MarkerCfg) bool { return !m.restricted })).addr, e.quars[0].addr}
 			if tier() == "thorough" {
 				senders = append(senders, e.plain[3].addr, e.plain[5].addr, e.ibcmod.addr, e.ghost.addr, pick(anyMarker).addr)
-				receivers = append(receivers, e.recv[4].addr, e.recv[5].addr, pick(anyMarker).addr, e.bypass[2].addr)
+				receivers = append(receivers, e.recv[4].addr, e.recv[5].addr, pick(anyMarker).addr, e.bypass[2].addr, e.quars[1].addr)
 			}
 			type af struct {
 				agents     func(from sdk.AccAddress) []sdk.AccAddress
@@ -849,7 +1123,12 @@ func TestC04(t *testing.T) {
 			for _, m := range w.markers {
 				for _, from := range senders {
 					for _, to := range receivers {
-						for _, c := range combos {
+						for ci, c := range combos {
+							// markers that are not active deny everything outside the bypass branch: four of
+							// the agent/flag combinations (none, one agent, fee grant, context bypass) suffice
+							if tier() != "thorough" && (m.kind != c04Marker || m.status != markertypes.StatusActive) && (ci == 2 || ci == 3 || ci == 5) {
+								continue
+							}
 							q := &c04Query{from: from, to: to, agents: c.agents(from), bypass: c.bypass, fg: c.fg, amt: amtOf(m)}
 							toIsModule := false
 							if a, ok := e.actors[string(to)]; ok && a.module {
@@ -949,8 +1228,11 @@ func TestC04(t *testing.T) {
 			allFrom = append(allFrom, a.addr)
 			allTo = append(allTo, a.addr)
 		}
-		allFrom = append(allFrom, e.feeColl.addr, e.mmod.addr, e.ibcmod.addr, e.ghost.addr, e.recv[1].addr)
-		allTo = append(allTo, e.feeColl.addr, e.feeColl.addr, e.mmod.addr, e.ghost.addr)
+		allFrom = append(allFrom, e.feeColl.addr, e.mmod.addr, e.ibcmod.addr, e.ghost.addr, e.recv[1].addr, e.sanct.addr, e.quars[1].addr)
+		allTo = append(allTo, e.feeColl.addr, e.feeColl.addr, e.mmod.addr, e.ghost.addr, e.sanct.addr)
+		for _, a := range e.quars {
+			allTo = append(allTo, a.addr, a.addr)
+		}
 		for _, m := range anyMarker {
 			if m.funded && r.Intn(2) == 0 {
 				allFrom = append(allFrom, m.addr)
@@ -974,6 +1256,8 @@ func TestC04(t *testing.T) {
 			}
 			q.bypass = r.Intn(12) == 0
 			q.fg = r.Intn(5) == 0
+			q.sbypass = r.Intn(25) == 0
+			q.qbypass = r.Intn(10) == 0
 			return q
 		}
 		randMarkers := func(n int) []*c04MarkerCfg {
@@ -1043,6 +1327,17 @@ func TestC04(t *testing.T) {
 			}
 			e.emitMulti(w, q, outs, outAddrs)
 		}
+
+		// ---- (e) sanction x quarantine x marker through the real bank; (f)-(h) the real endpoints ----
+		if wi == 0 || tier() == "thorough" {
+			e.quarantineSanctionMatrix(w)
+		}
+		if wi == 0 { // (i) every subset of the relevant access rights (world 0 has the fixed attribute sets)
+			e.accessSubsets(w)
+		}
+		e.transferCases(w, scale(150, 600))
+		e.settleCases(w, scale(60, 300))
+		e.valueOwnerCases(w, scale(120, 500))
 	}
 	if tot := e.accepted + e.denied; tot > 0 {
 		cw.CountN("allowed_percent", 100*e.accepted/tot)
